@@ -261,14 +261,28 @@ def cond_scenario(beh, idx):
 
 
 # ------------------------------------------------------------------ running and summarising
-def record(run, scenarios, prefix="disruption", shards=None):
-    spath = os.path.join(run.work, prefix + "-scenarios.json")
-    json.dump(scenarios, open(spath, "w"))
-    out = json.loads(run.drv("disruption", ["-in", spath, "-out", os.path.join(run.work, "traces-" + prefix),
-                                            "-shards", shards or min(vlib.NCPU, 8), "-prefix", prefix]))
-    if out["traces"] != len(scenarios):
-        raise vlib.InfraError("driver recorded %d traces for %d scenarios" % (out["traces"], len(scenarios)))
-    return out["files"]
+def record(run, scenarios, prefix="disruption", shards=None, procs=None):
+    """Run the scenarios on the real code: `procs` driver processes in parallel (each scenario has its own world), every
+    process writing `shards` trace files. Returns the trace files; the i-th Cfg of summarise() is NOT positional - match by name."""
+    import concurrent.futures as cf
+    procs = max(1, min(procs or 4, len(scenarios)))
+    shards = shards or 2
+    run.build_drv()
+    chunks = [scenarios[i::procs] for i in range(procs)]
+
+    def one(i):
+        spath = os.path.join(run.work, "%s-scenarios-%02d.json" % (prefix, i))
+        json.dump(chunks[i], open(spath, "w"))
+        out = json.loads(run.drv("disruption", ["-in", spath, "-out", os.path.join(run.work, "traces-" + prefix),
+                                                "-shards", shards, "-prefix", "%s-%02d" % (prefix, i)]))
+        if out["traces"] != len(chunks[i]):
+            raise vlib.InfraError("driver recorded %d traces for %d scenarios" % (out["traces"], len(chunks[i])))
+        return out["files"]
+    files = []
+    with cf.ThreadPoolExecutor(max_workers=procs) as ex:
+        for fs in ex.map(one, range(procs)):
+            files += [f if os.path.isabs(f) else os.path.join(run.work, f) for f in fs]
+    return files
 
 
 def summarise(files):
